@@ -191,7 +191,7 @@ theorem takeWhile_stop {p : UInt8 → Bool} (c : UInt8) (r : Bytes) (hc : p c = 
     ∀ (a : Bytes), (∀ x ∈ a, p x = true) → (a ++ c :: r).takeWhile p = a := by
   intro a
   induction a with
-  | nil => intro _; simp [List.takeWhile, hc]
+  | nil => intro _; simp [hc]
   | cons d ds ih =>
     intro h
     simp only [List.cons_append, List.takeWhile, h d (by simp)]
